@@ -667,3 +667,130 @@ def any_of(*fns):
                 out += e
         return out or None
     return g
+
+
+# ---------------------------------------------------------------------------
+# byte-slice pattern language of a `match name { b"..." => …, _ => Err }`
+
+def slice_patterns(body, local, field=None):
+    """Enumerate the decision tree rustc builds for matching a byte slice against literal
+    patterns.  The slice is the local `local` (an argument), or — with `field` — the field
+    of that name of any local (e.g. `name.local` of a matched `Name`).  Tests on other
+    slices are followed without being recorded.  Returns a list of (word | None, leaf block);
+    a word is None when some byte on the path is unconstrained (wildcard arm)."""
+    out = []
+    seen = set()
+    sym = Sym(body)
+
+    def mine(pl):
+        """Is this place (ignoring trailing index/deref) our slice?"""
+        if pl is None:
+            return False
+        projs = [p for p in pl["p"] if p[0] not in ("d", "ci", "i")]
+        if field is None:
+            return pl["l"] == local and not projs
+        return bool(projs) and projs[-1][0] == "f" and projs[-1][1] == field
+
+    def len_place(op):
+        """Place whose length a `PtrMetadata` temp holds."""
+        pl = op.get("c") or op.get("m")
+        if not pl or pl["p"]:
+            return None
+        cur = pl["l"]
+        for _ in range(6):
+            ds = [d for d in body.defs().get(cur, []) if d[2] == "assign"]
+            if len(ds) != 1:
+                return None
+            rv = ds[0][3]["rv"]
+            if rv["r"] == "un" and rv["uop"] == "PtrMetadata":
+                op2 = rv["a"]
+                p2 = op2.get("c") or op2.get("m")
+                if p2 is None:
+                    return None
+                if not p2["p"]:
+                    cur = p2["l"]
+                    # may be `&raw (*place)`
+                    ds2 = [d for d in body.defs().get(cur, []) if d[2] == "assign"]
+                    if len(ds2) == 1 and ds2[0][3]["rv"]["r"] in ("rawptr", "ref"):
+                        return ds2[0][3]["rv"]["pl"]
+                    return p2
+                return p2
+            if rv["r"] == "use":
+                op2 = rv["op"]
+                p2 = op2.get("c") or op2.get("m")
+                if p2 is None or p2["p"]:
+                    return None
+                cur = p2["l"]
+                continue
+            return None
+        return None
+
+    tested = [False]
+
+    def walk_tree(bb, length, known, depth):
+        key = (bb, length, tuple(sorted(known.items())))
+        if key in seen or depth > 600:
+            return
+        seen.add(key)
+        blk = body.blocks[bb]
+        t = blk["term"]
+        if t["t"] == "goto" and not blk["stmts"]:
+            return walk_tree(t["target"], length, known, depth + 1)
+        if length is None and not known and not tested[0] and t["t"] in ("call", "goto", "drop") and t.get("target") is not None:
+            # straight-line prefix before the decision tree starts
+            return walk_tree(t["target"], length, known, depth + 1)
+        if t["t"] == "switch":
+            tested[0] = True
+            op = t["discr"]
+            pl = op.get("c") or op.get("m")
+            # length test: switch on `Eq(len_temp, const)`
+            if pl and not pl["p"] and t.get("dty") == "bool":
+                ds = [d for d in body.defs().get(pl["l"], []) if d[2] == "assign"]
+                if len(ds) == 1 and ds[0][3]["rv"]["r"] == "bin" and ds[0][3]["rv"]["bop"] in ("Eq", "Ne"):
+                    rv = ds[0][3]["rv"]
+                    ca, cb = strip(sym.operand(rv["a"])), strip(sym.operand(rv["b"]))
+                    k, lp = None, None
+                    if cb[0] == "const":
+                        k, lp = cb[1], len_place(rv["a"])
+                    elif ca[0] == "const":
+                        k, lp = ca[1], len_place(rv["b"])
+                    e = switch_bool_edges(body, bb)
+                    if k is not None and lp is not None and e:
+                        eq_t = e[1] if rv["bop"] == "Eq" else e[0]
+                        ne_t = e[0] if rv["bop"] == "Eq" else e[1]
+                        if mine(lp):
+                            walk_tree(eq_t, k, dict(known), depth + 1)
+                            walk_tree(ne_t, length, dict(known), depth + 1)
+                        else:
+                            walk_tree(eq_t, length, dict(known), depth + 1)
+                            walk_tree(ne_t, length, dict(known), depth + 1)
+                        return
+            # byte test: switch directly on `(*slice)[i]`
+            if pl and pl["p"] and pl["p"][-1][0] == "ci" and not pl["p"][-1][3]:
+                idx = pl["p"][-1][1]
+                if mine(pl):
+                    for v, tb in t["targets"]:
+                        k2 = dict(known)
+                        k2[idx] = v
+                        walk_tree(tb, length, k2, depth + 1)
+                    k3 = dict(known)
+                    k3[idx] = None
+                    walk_tree(t["otherwise"], length, k3, depth + 1)
+                else:
+                    for v, tb in t["targets"]:
+                        walk_tree(tb, length, dict(known), depth + 1)
+                    walk_tree(t["otherwise"], length, dict(known), depth + 1)
+                return
+            # discriminant test of an Option around another slice (namespace): follow all edges
+            term = strip(sym.operand(op))
+            if term[0] == "discr" and field is not None:
+                for v, tb in body.switch_edges(bb):
+                    walk_tree(tb, length, dict(known), depth + 1)
+                return
+        word = None
+        if length is not None and len(known) >= length and all(known.get(i) is not None for i in range(length)):
+            word = bytes(known[i] for i in range(length))
+        out.append((word, bb))
+
+    walk_tree(0, None, {}, 0)
+    return out
